@@ -265,12 +265,28 @@ def observed_sufs(names, created, ast=None):
 
 def correspondence(ctx, case, res, names, model_exe):
     """-> list of disagreement strings between the model and the real programs"""
-    lines = G.ast_lines(res["exp"], case.ast) + ["scan", "passes", "cxx auto", "cxx " + observed_sufs(names, res["created"], case.ast)]
+    obs = observed_sufs(names, res["created"], case.ast)
+    lines = G.ast_lines(res["exp"], case.ast) + ["scan", "passes", "cxx auto", "cxx " + obs]
+    if case.gen is not None:
+        # the pass decision of multpass.c (print_schemas_separate, checkTypes, checkEnts, checkItem) is in the model:
+        # predicted SCHEMAprint suffixes per schema, for files with and without interface clauses
+        for sn, ls in G.pass_objects(case.gen):
+            lines.append("pschema " + sn)
+            lines += ls
+        lines.append("printfile")
     rc, out, err = G.run_driver(model_exe, lines)
-    if rc != 0 or len(out) != len(lines) or "bad-op" in out[:-4]:
+    if rc != 0 or len(out) != len(lines) or "bad-op" in out:
         return [f"model driver rc={rc} answered {len(out)}/{len(lines)} lines {err[-200:]} {[o for o in out if o == 'bad-op'][:1]}"]
-    scan, passes, cauto, cobs = out[-4:]
+    n0 = len(G.ast_lines(res["exp"], case.ast))
+    scan, passes, cauto, cobs = out[n0:n0 + 4]
     dis = []
+    if case.gen is not None:
+        pf = out[-1]
+        want = {kv.split("=")[0]: kv.split("=")[1] for kv in obs.split(";")}
+        got = {kv.split("=")[0]: kv.split("=")[1] for kv in pf[2:].split(";")} if pf.startswith("F ") and "=" in pf else pf
+        ctx.hist("passes", "SCHEMAprint suffixes predicted by Pass.printFile" + (" (multi-pass or unprinted schema)" if any(v != "0" for v in want.values()) else ""))
+        if got != want:
+            dis.append(f"SCHEMAprint suffixes per schema: exp2cxx {want} vs Pass.printFile {got}")
     parts = scan[2:].split(" | ")
     shorts = parts[0].split()
     if [os.path.basename(d) for d in res["dirs_out"]] != shorts or any(os.path.dirname(d) != res["sc_dir"] for d in res["dirs_out"]):
@@ -354,6 +370,28 @@ ENTITY eb; s : ta_enum; END_ENTITY;
 END_SCHEMA;
 """
 MS_AST = [("aa_schema", ["type ta_enum enumeration_ 0 1", "ent ea 1"]), ("bb_schema", ["type tb_enum enumeration_ 0 1", "ent eb 1"])]
+SAME_NAME_TEXT = """SCHEMA s_orel1;
+ENTITY e_el;
+END_ENTITY;
+ENTITY e_ne25
+  SUBTYPE OF (e_el);
+END_ENTITY;
+END_SCHEMA;
+
+SCHEMA s_honepa;
+ENTITY e_or;
+END_ENTITY;
+ENTITY e_ormu;
+END_ENTITY;
+ENTITY e_el
+  SUBTYPE OF (e_or, e_ormu);
+END_ENTITY;
+ENTITY e_kadada56
+  SUBTYPE OF (e_el, e_or);
+END_ENTITY;
+END_SCHEMA;
+"""
+SAME_NAME_AST = [("s_orel1", ["ent e_el 0", "ent e_ne25 0"]), ("s_honepa", ["ent e_or 0", "ent e_ormu 0", "ent e_el 0", "ent e_kadada56 0"])]
 TWO_TEXT = "SCHEMA first_schema;\nENTITY ea; END_ENTITY;\nEND_SCHEMA;\nSCHEMA second_schema;\nENTITY eb; END_ENTITY;\nEND_SCHEMA;\n"
 TWO_AST = [("first_schema", ["ent ea 0"]), ("second_schema", ["ent eb 0"])]
 
@@ -369,6 +407,8 @@ def fixed_cases():
         # known defects (DESIGN §6 has none for C17; found by this check)
         Case("two-schemas-short-file-name", TWO_TEXT, "ms", ast=TWO_AST),
         Case("mutually-dependent-schemas", MS_TEXT, "mutually_dependent_schemas_in_one_file", ast=MS_AST),
+        # two schemas (no interface clauses) that both declare an entity `e_el`, one of them as a subtype: exp2cxx did not terminate before fix C17-2
+        Case("same-entity-name-in-two-schemas", SAME_NAME_TEXT, "two_schemas_with_an_entity_of_the_same_name", ast=SAME_NAME_AST),
         Case("schema-without-entities-and-types", "SCHEMA only_fun;\nFUNCTION ff(x : INTEGER) : INTEGER;\n  RETURN (x);\nEND_FUNCTION;\nEND_SCHEMA;\n",
              "empty_schema_file", ast=[("only_fun", ["other ff"])]),
         # exp2cxx's identifier gate (MAX_IDENT_LEN = 200): longer names are refused with exit 1 before any file is written, so the
@@ -497,9 +537,14 @@ def examine(ctx, b, case, model_exe, idx):
         if res["cx_rc"] == "timeout":
             cyc = SG.select_cycle_in(case.gen) if case.gen is not None else select_cycle_in_text(case.text or "")
             # decided from the schema: the known shape is selects containing each other (through aggregates) in a circle
-            key = "exp2cxx-does-not-terminate:" + ("select-cycle-through-aggregates" if cyc else "other")
+            # … or an entity name declared in two schemas of the file (ComplexCollect keeps its lists by supertype NAME)
+            ents = [l.split()[1] for _, ds in (case.ast or []) for l in ds if l.startswith("ent ")]
+            dup = sorted({e for e in ents if ents.count(e) > 1})
+            key = "exp2cxx-does-not-terminate:" + ("select-cycle-through-aggregates" if cyc else "same-entity-name-in-two-schemas" if dup else "other")
             who = (f"schema_scanner exits 0 and writes a build description; exp2cxx does not terminate"
-                   + (f" (selects {cyc} contain each other in a circle through aggregate types: checkTypes' sweep loop never settles)" if cyc else ""))
+                   + (f" (selects {cyc} contain each other in a circle through aggregate types: checkTypes' sweep loop never settles)" if cyc else
+                      f" (entity name(s) {dup} are declared in more than one schema of the file: ComplexCollect::remove() cannot find the second list of that name and the "
+                      f"loop that drops dependent lists in ComplexCollect::ComplexCollect() spins)" if dup else ""))
         ctx.violation(key,
                       f"[{case.name}] {who} (scanner rc={res['sc_rc']}, exp2cxx rc={res['cx_rc']}: {(res['cx_err'] if res['sc_rc'] == 0 else res['sc_err'])[-160:].strip()!r})",
                       {"file_name": os.path.join(case.subdir, case.stem + ".exp") if not case.exp_path else case.exp_path,
